@@ -31,11 +31,12 @@ func (C04) Generate(r *core.Rand, tier string, idx int) *core.Scenario {
 			sc.Cfg[k] = 1
 		}
 	}
-	if r.P(1, 6) {
+	// classes that trigger recorded defects: at most one per run, a quarter of the runs altogether
+	switch r.Intn(8) {
+	case 0:
 		sc.Cfg["selfcopy"] = 1 // COPY/MOVE into the selected mailbox itself (finding F08)
-	}
-	if r.P(1, 4) {
-		sc.Cfg["fastrestart"] = 1 // restart and create mailboxes before the clock passed the last UIDVALIDITY handed out
+	case 1:
+		sc.Cfg["fastrestart"] = 1 // restart and create mailboxes before the clock passed the last UIDVALIDITY handed out (finding F13)
 	}
 	//                 app sto exp cop mov cnw del ren bmp rst crs adv noo fail sel
 	weights := []int{12, 6, 7, 5, 5, 3, 5, 2, 2, 3, 3, 3, 1, 2, 2}
@@ -306,7 +307,16 @@ func (C04) Execute(sc *core.Scenario, keepLog bool) *core.Result {
 				// DELETE and re-CREATE the same name (never INBOX)
 				k := 1 + abs(a.Arg(0))%(len(m.Boxes)-1)
 				name := m.Boxes[k]
+				if s.C.Dead {
+					break
+				}
 				r1 := s.Cmd("DELETE %s", Quote(name))
+				if !r1.OK() {
+					// refused (for instance BYE: the session's own selected mailbox had been
+					// deleted by another session): nothing happened to the mailbox
+					m.reviveSessions()
+					break
+				}
 				for j := range m.Sess {
 					if m.Sel[j] == k {
 						m.Sel[j] = -1
